@@ -65,6 +65,7 @@ def plan(tier, seed):
     jobs['rewrite'] = ('ChainRewrite', dict(cfg='ChainRewrite.cfg', coverage=True, workers=4), True)
     jobs['rewrite-mutant'] = ('ChainRewrite', dict(cfg='ChainRewrite_mutant.cfg', workers=2), True)
     jobs['seq'] = ('SeqNesting', dict(cfg='SeqNesting.cfg', workers=4), True)
+    jobs['seq-struct'] = ('SeqNesting', dict(cfg='SeqNesting_struct.cfg', workers=2), True)
     if tier == 'quick':
         jobs['seq-sim'] = ('SeqNesting', dict(cfg='SeqNesting_sim.cfg', simulate=dict(num=6), depth=6, seed=seed, workers=2, timeout=600), False)
         muts = [LOOKUP_MUTANTS[seed % len(LOOKUP_MUTANTS)]]
